@@ -1,6 +1,6 @@
 """Per-property check definitions: which specifications are model-checked, which scenario families are
 generated from them, how the real code is driven and which monitors decide."""
-import json, os, random, shutil, time, itertools, subprocess
+import json, os, re, random, shutil, time, itertools, subprocess
 import vlib
 from vlib import Work, Infra, log, VERIF
 
@@ -1469,7 +1469,7 @@ def c12(W, replay=None):
     W.build()
     if replay:
         rs = [json.loads(l) for l in open(os.path.join(replay, "scenario.ndjson")) if l.strip()]
-        if rs and rs[0].get("conc") and "pre" in rs[0]:
+        if rs and rs[0].get("conc") and "pre" in rs[0] and not str(rs[0].get("id", "")).startswith("memstore/"):
             lv = lin_expired(W, 0, given=rs * 300)
             idx = lv.pop("index")
             return judge("C12", W, [lv], idx, traces=len(rs) * 300, samples=[{"scenario": rs[0]}])
@@ -1492,6 +1492,12 @@ def c12(W, replay=None):
         xv = lin_expired(W, 2000 if W.tier == "thorough" else 200)
         index.update(xv.pop("index"))
         vs.append(xv)
+        # the lock-granularity model of the store, and every history of its initial-state family on the real store
+        fam = memstore_design(W)
+        mv = linearizability(W, 0, given=fam * (8 if W.tier == "thorough" else 2), name="linfam")
+        index.update(mv.pop("index"))
+        mv["fired"] = {"memStoreFamilyHistories": mv["fired"].get("linearizabilityHistories", 0)}
+        vs.append(mv)
         rv, nr = redis_pairs(W, 400 if W.tier == "thorough" else 25)
         index.update(rv.pop("index"))
         vs.append(rv)
@@ -1599,7 +1605,36 @@ def timeout_system_scenarios(W):
     return res
 
 
-def linearizability(W, n, given=None):
+def memstore_design(W):
+    """MemStore.tla: the in-memory store at lock granularity. TLC explores every interleaving of the critical sections of
+    every choice of three operations from three initial sessions: as coded (`set` holds the lock throughout) every outcome is
+    serializable; with the lock released around the setter it is not (the invariant discriminates). The family of initial
+    states of that model is then handed to the real store as concurrent histories (the caller runs them through LinTrace)."""
+    cfg = "SPECIFICATION Spec\nCONSTANTS\n  SetHoldsLock = %s\n  N = 3\nINVARIANTS Serializable Terminating\nCHECK_DEADLOCK FALSE\n"
+    out, viol = W.tlc_exhaustive("MemStore", cfg % "TRUE", "memstore-design", workers=4, timeout=1200)
+    if viol:
+        raise Infra("MemStore (set holds the lock, as coded) violates %s: the specification is wrong" % viol)
+    m = re.search(r"Finished computing initial states: (\d+) distinct state", out)
+    ninit = int(m.group(1)) if m else -1
+    out2, viol2 = W.tlc_exhaustive("MemStore", cfg % "FALSE", "memstore-design-split-set", workers=4, timeout=1200, expect_violation=True)
+    if "Serializable" not in (viol2 or []):
+        raise Infra("MemStore with the lock released around the setter is expected to violate Serializable; TLC reports %s" % viol2)
+    ops_ = ["SetTok", "SetAuth", "GetAuth", "GetTok", "ClearAuth", "Remove"]       # Ops of MemStore.tla
+    starts = {"none": [], "auth": [{"op": "SetAuth", "sid": "s1", "v": 4, "thr": 0}], "tok": [{"op": "SetTok", "sid": "s1", "v": 4, "thr": 0}]}   # Starts of MemStore.tla
+    fam = []
+    for sn, pre in starts.items():
+        for a in ops_:
+            for b in ops_:
+                for c in ops_:
+                    ops = [{"op": o, "sid": "s1", "v": (t if o.startswith("Set") else 0), "thr": t} for t, o in ((1, a), (2, b), (3, c))]
+                    fam.append({"id": "memstore/%s/%s-%s-%s" % (sn, a, b, c), "store": "memory", "abs": 0, "idle": 0, "conc": True, "pre": pre, "ops": ops,
+                                "post": [{"op": "GetTok", "sid": "s1", "v": 0, "thr": 0}, {"op": "GetAuth", "sid": "s1", "v": 0, "thr": 0}]})   # the final state s of the model
+    if ninit != len(fam):
+        raise Infra("MemStore.tla has %d initial states, the history family derived from it %d: the two have drifted apart" % (ninit, len(fam)))
+    return fam
+
+
+def linearizability(W, n, given=None, name="lin"):
     """Concurrent histories of the in-memory store (3 goroutines x 3 calls, the clock hook widens race windows), judged by LinTrace.tla."""
     rnd = random.Random(W.seed * 7877 + 1)
     scen = [dict(g, id="%s#%d" % (g["id"], i)) for i, g in enumerate(given or [])]
@@ -1611,11 +1646,11 @@ def linearizability(W, n, given=None):
                 op = rnd.choice(["SetTok", "SetAuth", "SetAuth", "GetTok", "GetAuth", "GetAuth", "ClearAuth", "Remove"])
                 ops.append({"op": op, "sid": rnd.choice(["s1", "s1", "s1", "s2"]), "v": rnd.randint(1, 3) if op.startswith("Set") else 0, "thr": thr})
         scen.append({"id": "lin/%d" % k, "store": "memory", "abs": 0, "idle": 0, "conc": True, "ops": ops})
-    trace = W.drive("TestStore", scen, "lin", env_extra={"VERIF_CLOCK_JITTER": "1"})
-    outf = W.path("lin.verdict.json")
+    trace = W.drive("TestStore", scen, name, env_extra={"VERIF_CLOCK_JITTER": "1"})
+    outf = W.path(name + ".verdict.json")
     cfg = ('SPECIFICATION Spec\nCONSTANTS\n  TraceFile = "%s"\n  OutFile = "%s"\nCONSTRAINT Mark\nPOSTCONDITION Post\nCHECK_DEADLOCK FALSE\n' % (trace, outf))
     # InitMark must run before the search: make it part of Init through an ASSUME-free trick (evaluated once as a constant-level operator)
-    out, gen, dist, viol, d = W.tlc("LinTrace", cfg.replace("SPECIFICATION Spec", "INIT InitL\nNEXT Next"), "lin", workers=1, timeout=1800,
+    out, gen, dist, viol, d = W.tlc("LinTrace", cfg.replace("SPECIFICATION Spec", "INIT InitL\nNEXT Next"), name, workers=1, timeout=1800,
                                     jvm=["-Dtlc2.tool.queue.IStateQueue=StateDeque"])
     if not os.path.exists(outf):
         raise Infra("LinTrace produced no verdict:\n" + out[-2000:])
@@ -1635,8 +1670,8 @@ def linearizability(W, n, given=None):
                         break
                     sc_id = e["scenario"]
         v["viol"].append({"p": "C12", "m": "Linearizable", "cause": "memory-store-history-not-linearizable", "sc": sc_id, "n": r["consumed"], "at": r["consumed"]})
-    log("[trace] lin: %d concurrent histories (%d events) searched for a linearization by LinTrace (%d states); %s" % (
-        n, r["len"], dist, "all linearizable" if r["consumed"] >= r["len"] else "stuck at line %d" % r["consumed"]))
+    log("[trace] %s: %d concurrent histories (%d events) searched for a linearization by LinTrace (%d states); %s" % (
+        name, n, r["len"], dist, "all linearizable" if r["consumed"] >= r["len"] else "stuck at line %d" % r["consumed"]))
     return v
 
 
